@@ -77,6 +77,7 @@ struct NbCase
   int benchDim = -1; double benchWidth = 0;         // |x_d(target) - x_d(datum)| <= width
   int codeOpt = 0;                                  // 1: codes equal, 2: codes different
   bool fault = false; double fx0 = 0, fy0 = 0, fx1 = 0, fy1 = 0;  // one fault segment
+  bool xByLocation = false; // leave-one-out with a target Db different from the input Db: 'the target itself' = a datum at the target's location
   bool noZ = false;        // input Db without any Z variable: no sample can be 'undefined'
   bool nsmaxZero = false;  // pass nsmax = 0 literally (instead of the default ITEST) for 'no quota'
 };
@@ -162,6 +163,7 @@ static RefOut reference(const NbCase& c)
     if (!c.active[i]) { r.whyNot[i] = "masked"; continue; }
     if (!c.defined[i]) { r.whyNot[i] = "undefined"; continue; }
     if (c.xmode == 1 && i == c.tgtIdx) { r.whyNot[i] = "xvalid-target"; continue; }
+    if (c.xmode == 1 && c.xByLocation && c.pts[i][0] == c.tgt[0] && c.pts[i][1] == c.tgt[1] && c.pts[i][2] == c.tgt[2]) { r.whyNot[i] = "xvalid-target"; continue; }
     if (c.xmode == 2 && c.code[i] == c.tgtCode) { r.whyNot[i] = "xvalid-fold"; continue; }
     if (c.benchDim >= 0 && std::fabs(c.tgt[c.benchDim] - c.pts[i][c.benchDim]) > c.benchWidth) { r.whyNot[i] = "bench"; continue; }
     if (c.codeOpt == 1 && c.code[i] != c.tgtCode) { r.whyNot[i] = "code"; continue; }
@@ -308,7 +310,8 @@ static std::string caseText(const NbCase& c, const std::vector<int>& S)
   o << ") radius=" << (FFFF(c.radius) ? std::string("inf") : fmt(c.radius));
   if (c.hasCoef) { o << " coeffs=(" << c.coef[0]; for (int d = 1; d < c.ndim; d++) o << "," << c.coef[d]; o << ") angle=" << c.theta; } else o << " no-coeffs";
   o << " nmini=" << c.nmini << " nmaxi=" << c.nmaxi << " nsect=" << c.nsect << " nsmax=" << c.nsmax << " xvalid=" << c.xmode;
-  if (c.xmode) o << " target-rank=" << c.tgtIdx;
+  if (c.xmode) o << " target-rank-in-input-db=" << c.tgtIdx;
+  if (c.xmode == 2) { o << " target-fold-code=" << c.tgtCode << " sample-codes=["; for (size_t i = 0; i < c.code.size(); i++) o << (i ? "," : "") << c.code[i]; o << "]"; }
   o << " samples=[";
   for (size_t i = 0; i < c.pts.size(); i++)
   {
@@ -629,6 +632,77 @@ VF_PART(xvalid)
     }
     if (id % 601 == 1) C.sample("{\"id\":" + std::to_string(id) + ",\"axes\":" + sp.describe(idx) + ",\"targets\":\"every active sample\"}");
     delete din;
+  });
+}
+
+// ---- part: cross-validation / K-fold with a target Db DIFFERENT from the input Db ------------------------------------------
+// K-fold: the fold is the one of the TARGET (code read in the target Db): data carrying that code are excluded, whatever the
+// rank of the target; a target whose code is absent from the data, undefined, or whose Db has no code at all has no fold in
+// the data: nothing is excluded. Leave-one-out: the class documentation says the option suppresses "any sample which would be
+// too close to (or coincide with) the target"; with a separate Db only a datum at the target's LOCATION is "the target
+// itself": it is excluded, every other datum (all further than 0.01 here) stays. Nothing else is judged differently.
+VF_PART(xvalid_separate)
+{
+  setDim(2);
+  std::vector<P3> all = lattice2(3);
+  std::vector<unsigned> subsets;
+  for (unsigned s = 0; s < 512; s++) if (popcount(s) >= 3 && popcount(s) <= (C.thorough() ? 6 : 4)) subsets.push_back(s);
+  static const int NOCODE = -999;   // target without a usable fold
+  static const int nsects[] = {1, 3, 4}; static const int nmaxis[] = {1, 2, 3, 5, 100}; static const double radii[] = {TEST, 1.5};
+  static const int nminis[] = {1, 2}; static const int nsmaxs[] = {0, 1};
+  Space sp;
+  sp.axis("xmode", 2).axis("out", 7).axis("aniso", 2).axis("mode", 2).axis("subset", (int)subsets.size());
+  for_each_case(C, sp, [&](uint64_t id, const std::vector<int>& idx) {
+    NbCase c;
+    makeSamples(c, all, subsets[idx[4]], idx[3] ? 3 : 0);
+    const Aniso& a = anisos()[idx[2] ? 3 : 0];
+    c.hasCoef = a.has; c.coef = {a.c0, a.c1, 1}; c.theta = a.theta;
+    c.xmode = idx[0] + 1; c.xByLocation = true; c.tgtIdx = -1;
+    Db* din = buildDb(c, true);
+    int n = (int)c.pts.size();
+    // the target Db: locations + codes (NOCODE = undefined code)
+    std::vector<P3> tp; std::vector<int> tc; bool withCode = true, grid = false;
+    int out = idx[1];
+    if (out == 0) for (int k = n - 1; k >= 0; k--) { tp.push_back(c.pts[k]); tc.push_back(c.code[k]); }                 // data locations, reversed order, own codes
+    if (out == 1) for (int k = 0; k < n; k++) { tp.push_back(c.pts[k]); tc.push_back((c.code[k] + 1) % 3); }              // same order, codes shifted by one
+    if (out == 2) for (int k = 0; k < n; k++) { tp.push_back(c.pts[(k + 1) % n]); tc.push_back((2 * c.code[k] + 1) % 3); } // rotated order, codes permuted
+    if (out == 3) { static const int cd[] = {0, 1, 2, 7, NOCODE, 1}; for (size_t k = 0; k < targets2().size(); k++) { tp.push_back(targets2()[k]); tc.push_back(cd[k]); } }   // off-data targets; a code absent from the data; an undefined code
+    if (out == 4 || out == 5)
+    {
+      // 3x3 grid: nodes on the (un-jittered) lattice (node 0 sits on datum (0,0)) or shifted off the data
+      grid = true;
+      double x0 = out == 4 ? 0. : 0.4;
+      for (int j = 0; j < 3; j++) for (int i = 0; i < 3; i++) { tp.push_back({x0 + i, x0 + j * 1., 0}); tc.push_back((i + 2 * j) % 4 == 3 ? 7 : (i + 2 * j) % 4); }
+    }
+    if (out == 6) { withCode = false; for (int k = n - 1; k >= 0; k--) { tp.push_back(c.pts[k]); tc.push_back(NOCODE); } }     // target Db without any code
+    Db* dout = nullptr;
+    if (grid) dout = DbGrid::create(VectorInt {3, 3}, VectorDouble {1., 1.}, VectorDouble {tp[0][0], tp[0][1]});
+    else { std::vector<std::vector<double>> x(2); for (auto& p : tp) { x[0].push_back(p[0]); x[1].push_back(p[1]); } dout = make_db_xz(x, {}); }
+    if (withCode) { VectorDouble cd; for (int v : tc) cd.push_back(v == NOCODE ? TEST : (double)v); dout->addColumns(cd, "code", ELoc::C); }
+    bool differs = false;
+    for (size_t it = 0; it < tp.size(); it++)
+    {
+      c.tgt = tp[it]; c.tgtCode = tc[it];
+      if ((int)it < n && c.code[it] != tc[it]) differs = true;
+      for (double rad : radii) for (int nmini : nminis) for (int nmaxi : nmaxis) for (int nsect : nsects) for (int nsmax : nsmaxs)
+      {
+        if (nmaxi < nmini || (nsect == 1 && nsmax)) continue;
+        c.radius = rad; c.nmini = nmini; c.nmaxi = nmaxi; c.nsect = nsect; c.nsmax = nsmax;
+        NeighMoving* nb = buildNeigh(c);
+        VectorInt ranks;
+        if (nb->attach(din, dout) != 0) { C.violation("select:attach-failed", caseText(c, {}), std::to_string(id)); delete nb; continue; }
+        nb->select((int)it, ranks);
+        RefOut r = reference(c);
+        int nx = 0; for (auto& w : r.whyNot) if (w == "xvalid-target" || w == "xvalid-fold") nx++;
+        C.outcome(c.xmode == 2 ? (c.tgtCode == NOCODE ? "kfold:target-without-fold" : nx ? "kfold:fold-of-the-target-excluded" : "kfold:fold-absent-from-the-data")
+                               : (nx ? "loo:datum-at-the-target-location-excluded" : "loo:no-datum-at-the-target-location"));
+        judge(C, c, toStd(ranks), c.xmode == 2 ? "select-kfold-separate-target-db" : "select-xvalid-separate-target-db", std::to_string(id), Hash().u(sigOf(c, id)).u(it).h, false);
+        delete nb;
+      }
+    }
+    if (differs) C.outcome("case:code-of-target-#i-differs-from-code-of-sample-#i");
+    if (id % 401 == 3) C.sample("{\"id\":" + std::to_string(id) + ",\"axes\":" + sp.describe(idx) + ",\"targets\":" + std::to_string(tp.size()) + "}");
+    delete din; delete dout;
   });
 }
 
